@@ -277,9 +277,11 @@ def main():
         "setup_cmd": "./check --setup",
         "hooks": {
             "guard": "cargo feature verif-hooks (crates cgt-core and cgt-formatter-pdf), off by default",
-            "enable": "harness/Cargo.toml depends on /repo/crates/cgt-core and cgt-formatter-pdf with "
-                      "features=[\"verif-hooks\"]; ./check --setup builds it (release, offline) into /verif/.target; "
-                      "the cgt-tool binary used at the process boundary is built WITHOUT the feature",
+            "enable": "harness/Cargo.toml has a default feature `hooks` = [cgt-core/verif-hooks, cgt-formatter-pdf/verif-hooks]; "
+                      "./check --setup builds the harness with it (release, offline) into /verif/.target; if /repo no longer "
+                      "compiles with verif-hooks the harness is built with --no-default-features and hook-dependent clauses "
+                      "are skipped (those checks then report inconclusive); the cgt-tool binary used at the process boundary "
+                      "is always built WITHOUT the feature",
             "baseline_off_cmd": BASELINE_OFF,
             "source_commits": [c.split()[0] for c in hooks_commits],
             "add_only": True,
